@@ -491,9 +491,10 @@ func execAtlasLib(r *atlasRun, dir string) *atlasObs {
 	start, end := winStart, winEnd
 	o.T0 = time.Now().Unix()
 	if !r.Window {
-		SetAtlasLogStartDate(0)
-		SetAtlasLogEndDate(0)
-		start, end = GetStartAndEndDates()
+		// the default window (the last seven days) is main()'s business and is checked at the CLI level; the library is
+		// driven with the values main() would pass (no function outside the test suite's vocabulary is called here)
+		end = int(time.Now().Unix())
+		start = end - 7*24*3600
 	}
 	func() {
 		defer func() {
